@@ -95,6 +95,12 @@ package vm
 //@ spec fun rvComparable(v reflect.Value) bool
 // rvIndexV(v, i): element i of a slice, array or string value (what reflect.Value.Index returns)
 //@ spec fun rvIndexV(v reflect.Value, i int) reflect.Value
+// reflect as functions of its arguments (trusted): ValueOf, Value.Type, Type.ConvertibleTo, Value.Convert, Zero
+//@ spec fun valueOfS(i any) reflect.Value
+//@ spec fun rvTypeOf(v reflect.Value) reflect.Type
+//@ spec fun typeConvertible(t reflect.Type, u reflect.Type) bool
+//@ spec fun rvConvert(v reflect.Value, t reflect.Type) reflect.Value
+//@ spec fun rvZero(t reflect.Type) reflect.Value
 //@ spec fun hashableKey(k reflect.Value) bool = (rvKind(k) == reflect.Interface && rvIsNil(k)) || rvComparable(k)
 //@ spec fun chanClosedOrNil(v reflect.Value) bool
 // calleeMayPanic(f): calling the function value f may panic — true of any host function, unknown to the verifier:
